@@ -16,9 +16,9 @@ def make_workload(rng: random.Random):
     """A small multi-rank application state, described by plain data so that it can be rebuilt (and replayed)."""
     W = rng.choice([1, 2, 2, 3, 3, 4])
     wl = {"W": W, "batching": rng.random() < 0.5, "chunk": rng.choice([None, 16, 64]),
-          "replicated": rng.random() < 0.6, "ranks": []}
+          "replicated": rng.random() < 0.6, "ranks": [], "conc": rng.choice([None, None, 1, 1, 2])}
     for r in range(W):
-        n_priv = rng.randint(1, 3)
+        n_priv = rng.randint(1, 3) if rng.random() < 0.7 else rng.randint(4, 7)
         wl["ranks"].append({"priv": [rng.randint(1, 9) for _ in range(n_priv)], "extra_key": rng.random() < 0.3,
                             "prim": rng.randint(0, 99)})
     wl["shared_len"] = rng.choice([3, 8, 20])
@@ -68,6 +68,10 @@ class Env:
                "TORCHSNAPSHOT_PER_RANK_MEMORY_BUDGET_BYTES": "100000000"}
         if self.wl["chunk"]:
             env["TORCHSNAPSHOT_MAX_CHUNK_SIZE_BYTES_OVERRIDE"] = str(self.wl["chunk"])
+        if self.wl.get("conc"):
+            # fewer concurrent storage operations than write requests: buffers queue up behind the cap and are
+            # still waiting when execute_write_reqs hands over to PendingIOWork.complete
+            env["TORCHSNAPSHOT_MAX_PER_RANK_IO_CONCURRENCY_OVERRIDE"] = str(self.wl["conc"])
         for k, v in env.items():
             self.saved[k] = os.environ.get(k)
             os.environ[k] = v
@@ -79,7 +83,9 @@ class Env:
                 os.environ.pop(k, None)
             else:
                 os.environ[k] = v
-        os.environ.pop("TORCHSNAPSHOT_MAX_CHUNK_SIZE_BYTES_OVERRIDE", None) if not self.saved.get("TORCHSNAPSHOT_MAX_CHUNK_SIZE_BYTES_OVERRIDE") else None
+        for k in ("TORCHSNAPSHOT_MAX_CHUNK_SIZE_BYTES_OVERRIDE", "TORCHSNAPSHOT_MAX_PER_RANK_IO_CONCURRENCY_OVERRIDE"):
+            if not self.saved.get(k):
+                os.environ.pop(k, None)
 
 
 # --------------------------------------------------------------------------- schedules
